@@ -77,6 +77,7 @@ class Registry:
         self.providers = {}
         self.axioms = []
         self.named_tuples = {}
+        self.enums = {}
         self.opaque_methods = {}
         self.opaque_raises = {}
         self.opaque_attrs = {}
@@ -94,6 +95,10 @@ class Registry:
     def spec_fn(self, name, fn):
         """fn(ex, st, *vals) -> Val : a specification-only function usable in contract expressions."""
         self.spec_fns[name] = fn
+
+    def enum(self, name, members, t):
+        """An enum.Enum class: its members are pairwise distinct constants of the opaque type t."""
+        self.enums[name] = (list(members), t)
 
     def named_tuple(self, name, tup):
         self.named_tuples[name] = tup
@@ -187,5 +192,6 @@ contract = REG.contract
 spec_fn = REG.spec_fn
 provider = REG.provider
 named_tuple = REG.named_tuple
+enum = REG.enum
 opaque_method = REG.opaque_method
 opaque_attr = REG.opaque_attr
